@@ -318,14 +318,28 @@ pub fn compare<N: Nondet, const I: usize, const CLS: u8>(n: &mut N) {
 /// cells), right operand of symbolic type or the left operand itself; all values restricted to the types
 /// C11 lists; result == ref_eq, nothing left behind
 pub fn equality<N: Nondet, const NEGATE: bool, const LT: usize, const RT: usize>(n: &mut N) {
+    equality_leaves::<N, NEGATE, LT, RT, 20, 20>(n)
+}
+
+/// the same with the leaf cells of concrete types (the worklist of `data_equal` stays small for symex only
+/// when the types it dispatches on are concrete: DESIGN.md probe 30)
+pub fn equality_leaves<N: Nondet, const NEGATE: bool, const LT: usize, const RT: usize, const L0: usize, const L1: usize>(n: &mut N) {
     let instr = if NEGATE { Instruction::NotEqual } else { Instruction::Equal };
-    let (mut d, left) = fixture(n, LT);
+    let (mut d, left) = fixture_leaves(n, LT, L0, L1);
     // RT == 20: right operand of symbolic type; otherwise of the concrete type TAGS[RT] (the structured
     // left types traverse their operands: a symbolic right type does not finish, DESIGN.md probes 28, 30)
-    let any = push_any(n, &mut d);
-    if RT < 20 {
-        n.assume(d.cells[any].tag == TAGS[RT]);
-    }
+    let any = if RT < 20 {
+        // right operand of the concrete type TAGS[RT], contents symbolic
+        let i = d.n_cells;
+        let c = Cell { tag: TAGS[RT], a: n.usize(), b: n.usize(), num: SimpleNumber::Integer(n.i32()), sym: n.u64(), ty: any_tag(n) };
+        d.cells[i] = c;
+        d.n_cells = i + 1;
+        let ok = cell_valid(&d, i, 2);
+        n.assume(ok);
+        i
+    } else {
+        push_any(n, &mut d)
+    };
     let right = if n.bool() { left } else { any };
     let mut i = 0;
     while i < d.n_cells {
@@ -491,4 +505,75 @@ pub fn compare_mismatch<N: Nondet, const I: usize, const LT: usize, const RT: us
     pa!("C06", s.d.n_regs == s.regs_before - 1 && s.d.regs[0] == s.sentinel && s.d.cursor == 1);
     pa!("C08", s.d.n_calls == 0);
     pa!("C12", s.d.cells[top(&s.d)].tag == T::False);
+}
+
+/// C11 on fully concrete SHAPES (addresses, types, lengths concrete; only the leaf payloads symbolic):
+/// the worklist algorithm of `perform_equality_check` stays tractable only when the types it dispatches on
+/// are constants for symex (a type read through a symbolic address is not). 14 shapes, written out.
+pub fn equality_shape<N: Nondet, const SHAPE: u8, const NEGATE: bool>(n: &mut N) {
+    let instr = if NEGATE { Instruction::NotEqual } else { Instruction::Equal };
+    let mut d: SD = BoundedData::new();
+    let mut leaf = [0usize; 6];
+    let mut i = 0;
+    while i < 6 {
+        leaf[i] = d.add_number(SimpleNumber::Integer(n.i32())).unwrap();
+        i += 1;
+    }
+    let sym = d.add_symbol(n.u64()).unwrap();
+    let [n0, n1, n2, n3, n4, n5] = leaf;
+    let (left, right) = match SHAPE {
+        0 => (d.add_pair((n0, n1)).unwrap(), d.add_pair((n2, n3)).unwrap()),
+        1 => (d.add_pair((n0, n1)).unwrap(), d.add_pair((n0, n3)).unwrap()),
+        2 => {
+            let p = d.add_pair((n0, n1)).unwrap();
+            (p, p)
+        }
+        3 => {
+            let a = d.add_pair((n0, n1)).unwrap();
+            let b = d.add_pair((n3, n4)).unwrap();
+            (d.add_pair((a, n2)).unwrap(), d.add_pair((b, n5)).unwrap())
+        }
+        4 => (d.add_list_direct(&[n0, n1]), d.add_list_direct(&[n2, n3])),
+        5 => (d.add_list_direct(&[n0, n1]), d.add_list_direct(&[n2])),
+        6 => (d.add_list_direct(&[n0]), d.add_list_direct(&[n1, n2])),
+        7 => (d.add_list_direct(&[]), d.add_list_direct(&[])),
+        8 => {
+            let l = d.add_list_direct(&[n0, n1]);
+            let r0 = d.add_list_direct(&[n2]);
+            (l, d.add_concatenation(r0, n3).unwrap())
+        }
+        9 => (d.add_concatenation(n0, n1).unwrap(), d.add_list_direct(&[n2, n3])),
+        10 => {
+            let a = d.add_list_direct(&[n0]);
+            let b = d.add_list_direct(&[n1]);
+            (d.add_concatenation(a, b).unwrap(), d.add_concatenation(n2, n3).unwrap())
+        }
+        11 => {
+            let a = d.add_pair((n0, n1)).unwrap();
+            let b = d.add_pair((n2, n3)).unwrap();
+            (d.add_list_direct(&[a]), d.add_list_direct(&[b]))
+        }
+        12 => (d.add_pair((n0, sym)).unwrap(), d.add_pair((n2, n3)).unwrap()),
+        _ => {
+            let l = d.add_list_direct(&[n0, n1, n2]);
+            let r0 = d.add_list_direct(&[n3, n4]);
+            (l, d.add_concatenation(r0, n5).unwrap())
+        }
+    };
+    let expected = ref_eq(&d, left, right, 3);
+    let mut s = finish(n, d, &[left, right], instr);
+    let res = execute_current_instruction(&mut s.d);
+    gv_cover!(expected == Some(true) || SHAPE == 5 || SHAPE == 6 || SHAPE == 12, "equal case reachable");
+    gv_cover!(expected == Some(false) || SHAPE == 2 || SHAPE == 7, "unequal case reachable");
+    pa!("C11", ran_ok(res));
+    pa!("C11", s.d.n_regs == s.regs_before - 1 && s.d.regs[0] == s.sentinel);
+    pa!("C06", s.d.cursor == 1 && s.d.n_values == s.values_before && s.d.n_frames == s.frames_before);
+    let t = s.d.cells[top(&s.d)].tag;
+    match expected {
+        Some(e) => {
+            let want = if e != NEGATE { T::True } else { T::False };
+            pa!("C11", t == want);
+        }
+        None => pa!("C11", false),
+    }
 }
